@@ -13,6 +13,7 @@ package main
 
 import (
 	"bytes"
+	"crypto/sha1"
 	"encoding/base64"
 	"encoding/json"
 	"fmt"
@@ -63,8 +64,31 @@ type outcome struct {
 	kind        string // ok, reject, panic, undecodable, diff, render-error
 	msg         string
 	diffs       []watgen.Mismatch
-	wasm        string // raw bytes as string ("" if none)
-	text        string
+	wasm        string // raw bytes as string ("" if none); interned, one copy per distinct binary
+}
+
+// intern keeps one copy of every distinct byte string (binaries, printed texts).
+var internTab sync.Map
+
+func intern(b []byte) string {
+	if len(b) == 0 {
+		return ""
+	}
+	k := sha1.Sum(b)
+	if v, ok := internTab.Load(k); ok {
+		return v.(string)
+	}
+	v, _ := internTab.LoadOrStore(k, string(b))
+	return v.(string)
+}
+
+// textOf re-renders the text of one (item, style) pair for a report.
+func textOf(it *watgen.Item, st watgen.Style) string {
+	rd, err := watgen.Render(it.Module, st)
+	if err != nil {
+		return "render error: " + err.Error()
+	}
+	return rd.Text
 }
 
 type cand struct {
@@ -162,6 +186,7 @@ func main() {
 	r.Assume("the supported subset is the dialect frozen in engine/watgen/frozen.go (" + watgen.FrozenCommit + "): non-folded instructions, one table, one memory, active segments with i32.const offsets, call/start by name")
 	r.Assume("literal spellings frozen as outside the dialect (nan/inf, hexadecimal integers with the sign bit, negative hexadecimal, unsigned decimal i64 above MaxInt64) may be rejected with an error; they must not panic and, if accepted, must assemble correctly")
 	r.Assume("'what the reference assembler emits' is watgen.Lower, bound on every run to the stored WABT 1.0.29 binaries byte for byte; WABT itself is not installed")
+	r.Assume("an empty else arm (`else end`) is not encoded: the reference keeps an if as (then, else) lists and writes the else opcode only for a non-empty else list (from the WABT source; no stored binary contains the case)")
 	r.Assume("name-section entries with an empty name are not compared (the reference writes none); stored order and every non-empty name are")
 
 	v8, err := watgen.StartV8(mc.VerifDir())
@@ -201,15 +226,15 @@ func main() {
 		{"ctrl-exec", watgen.CtrlFamily(mc.Pick(r, 1, 2), watgen.CtrlOpts{Exec: true}), cover},
 	}
 	if !thorough {
-		// quick: the complete style product on the simplest 96 shapes, the cover set on all
-		r.Bound("quick_styles", "cover set (16 of 128) on every item; all 128 on the mod shapes of weight <= 2")
+		// quick: the complete style product on the 110 simplest mod items, the cover set on all
+		r.Bound("quick_styles", "cover set (16 of 128) on every item; all 128 on the 110 simplest mod items")
 	}
 	var items []watgen.Item
 	var itemStyles [][]watgen.Style
 	for _, f := range fams {
 		for i := range f.items {
 			st := f.styles
-			if f.name == "mod" && !thorough && i < 96 {
+			if f.name == "mod" && !thorough && i < 110 {
 				st = styles
 			}
 			items = append(items, f.items[i])
@@ -221,27 +246,27 @@ func main() {
 	// own encoding of every item validates in V8 and survives decode (generator + encoder + decoder)
 	{
 		encs := make([][]byte, len(items))
-		for i := range items {
+		mc.ParallelFor(len(items), func(i int) {
 			b, err := watgen.Lower(items[i].Module, nil)
 			if err != nil {
 				r.HarnessError("lower %s/%s: %v", items[i].Family, items[i].Key, err)
-				continue
+				return
 			}
 			enc, err := b.Encode()
 			if err != nil {
 				r.HarnessError("encode %s/%s: %v", items[i].Family, items[i].Key, err)
-				continue
+				return
 			}
 			encs[i] = enc
 			back, err := watgen.Decode(enc)
 			if err != nil {
 				r.HarnessError("decode(encode) %s/%s: %v", items[i].Family, items[i].Key, err)
-				continue
+				return
 			}
 			if ds := watgen.Diff(b, back, diffOp); len(ds) > 0 {
 				r.HarnessError("decode(encode) differs for %s/%s: %s %s", items[i].Family, items[i].Key, ds[0].Class, ds[0].Detail)
 			}
-		}
+		})
 		res, err := cache.Get(encs)
 		if err != nil {
 			r.HarnessError("v8: %v", err)
@@ -276,7 +301,6 @@ func main() {
 				res = append(res, o)
 				continue
 			}
-			o.text = rd.Text
 			want, err := watgen.Lower(rd.Module, rd.Layout)
 			if err != nil {
 				o.kind, o.msg = "render-error", err.Error()
@@ -291,7 +315,7 @@ func main() {
 			case aerr != nil:
 				o.kind, o.msg = "reject", aerr.Error()
 			default:
-				o.wasm = string(wasm)
+				o.wasm = intern(wasm)
 				got, derr := watgen.Decode(wasm)
 				if derr != nil {
 					o.kind, o.msg = "undecodable", derr.Error()
@@ -404,13 +428,13 @@ func main() {
 			key := ID + "|" + c + "|style=" + st.String()
 			what := fmt.Sprintf("%s/%s in style %s: %s", it.Family, it.Key, st, clip(h.d.Detail, 500))
 			addCand(i*1000+h.style, key, what, map[string]interface{}{
-				"family": it.Family, "item": it.Key, "style": st.String(), "wat": h.o.text, "observed": clip(h.d.Detail, 4000),
+				"family": it.Family, "item": it.Key, "style": st.String(), "wat": textOf(it, st), "observed": clip(h.d.Detail, 4000),
 				"expected": "assembles; V8 validates; decoded sections and names equal the reference view of the text",
 			})
 		}
 		if r.WantSample() && len(outs[i]) > 0 && i%97 == 0 {
 			o := &outs[i][0]
-			r.Sample(map[string]interface{}{"family": it.Family, "item": it.Key, "style": watgen.StyleFromBits(o.style).String(), "outcome": o.kind, "wat": clip(o.text, 600)})
+			r.Sample(map[string]interface{}{"family": it.Family, "item": it.Key, "style": watgen.StyleFromBits(o.style).String(), "outcome": o.kind, "wat": clip(textOf(it, watgen.StyleFromBits(o.style)), 600)})
 		}
 	}
 	for w := range seen {
